@@ -480,3 +480,117 @@ class stochastic_solve(Contract):
         yield "trace-starts-with-the-start-value", T.tz(T.as_real(tr.fn(0))) == F_OBJ(t0)
         yield "returned-model-is-no-worse-than-any-trace-entry", T.ForAll([e], z3.Implies(z3.And(0 <= e, e < ne + 2), T.tz(T.as_real(tr.fn(e))) >= Fm))
         yield "returned-model-attains-a-trace-entry", T.Exists([e], z3.And(0 <= e, e < ne + 2, T.tz(T.as_real(tr.fn(e))) == Fm))
+
+
+# ======================================================================= estimate_helper (C12)
+
+from pyvc.values import HeapList, SymList
+
+
+def _havoc_list(S, env, name, tag, track_init=True):
+    """Loop havoc for a local list of matrices (Uexp / Zexp): arbitrary shapes, entries and initialisation state."""
+    hp = env[name]
+    if not isinstance(hp, HeapList):
+        raise PathAbort(f"estimate_helper contract: {name} is not a list of matrices")
+    F = z3.Function(T.fresh_name(tag + "_e"), I_, I_, I_, R_)
+    RW = z3.Function(T.fresh_name(tag + "_rows"), I_, I_)
+    CL = z3.Function(T.fresh_name(tag + "_cols"), I_, I_)
+    IN = z3.Function(T.fresh_name(tag + "_init"), I_, z3.BoolSort())
+    hp.entry = lambda m, i, j: F(T.tz(m), T.tz(i), T.tz(j))
+    hp.rows = lambda m: RW(T.tz(m))
+    hp.cols = lambda m: CL(T.tz(m))
+    hp.init = lambda m: IN(T.tz(m))
+    return hp
+
+
+@register
+class estimate_helper(Contract):
+    qual = "pyttb.gcp.fg_est.estimate_helper"
+    props = ("C12",)
+    doc = ("estimate_helper(factors, subs) for N >= 2 factor matrices (rows_m x R) and an S x N matrix of in-range sample "
+           "subscripts (S >= 1): the second result is a list of N matrices of shape S x R with "
+           "Zexp[k][s, r] = prod_{m != k} U_m[subs[s, m], r] -- the multilinear part of the chain rule that turns "
+           "d loss / d model into the gradient w.r.t. the entries of factor k.  The products over the symbolic number of modes "
+           "are specification functions: PRE(k) = prod_{m < k}, SUF(k) = prod_{m >= k}; three loop invariants (gather, "
+           "prefix pass, suffix pass); the local lists are `[placeholder] * N` lists whose slots must be re-bound before use "
+           "(obligations).  The model values (first result) are a sum over the components and are not specified here.")
+
+    def setup(self, S, case):
+        Nn, Rr, Sn = S.int("N", 2), S.int("R", 1), S.int("S", 1)
+        rows = z3.Function(T.fresh_name("eh_rows"), I_, I_)
+        fm = z3.Function(T.fresh_name("eh_fm"), I_, I_, I_, R_)
+        m = z3.Int("eh!m")
+        S.assume(T.ForAll([m], rows(m) >= 1, [rows(m)]))
+        factors = SymList(Nn, lambda mm: Arr((rows(T.tz(mm)), Rr), lambda i, j, mm=mm: fm(T.tz(mm), T.tz(i), T.tz(j)), "real"), kind="list")
+        subs = S.matrix("subs", Sn, Nn, "int")
+        s_, q = z3.Int("eh!s"), z3.Int("eh!q")
+        S.assume(T.ForAll([s_, q], z3.Implies(z3.And(0 <= s_, s_ < Sn, 0 <= q, q < Nn),
+                                              z3.And(0 <= T.tz(subs.fn(s_, q)), T.tz(subs.fn(s_, q)) < rows(q))), [subs.fn(s_, q)]))
+        U = lambda k_, s__, r_: fm(k_, T.tz(subs.fn(s__, k_)), r_)
+        PRE = z3.Function(T.fresh_name("PRE"), I_, I_, I_, R_)
+        SUF = z3.Function(T.fresh_name("SUF"), I_, I_, I_, R_)
+        k, r = z3.Int("eh!k"), z3.Int("eh!r")
+        S.ctx.assume(T.ForAll([s_, r], PRE(0, s_, r) == 1, [PRE(0, s_, r)]))
+        S.ctx.assume(T.ForAll([k, s_, r], z3.Implies(k >= 0, PRE(k + 1, s_, r) == PRE(k, s_, r) * U(k, s_, r)), [PRE(k + 1, s_, r)]))
+        S.ctx.assume(T.ForAll([s_, r], SUF(Nn, s_, r) == 1, [SUF(Nn, s_, r)]))
+        S.ctx.assume(T.ForAll([k, s_, r], z3.Implies(z3.And(0 <= k, k < Nn), SUF(k, s_, r) == U(k, s_, r) * SUF(k + 1, s_, r)), [SUF(k, s_, r)]))
+        return dict(factors=factors, subs=subs, __g__=dict(N=Nn, R=Rr, S=Sn, U=U, PRE=PRE, SUF=SUF))
+
+    # shape + initialisation + entries of the slots lo <= m < hi of a list, as spec(m, s, r)
+    @staticmethod
+    def _slots(a, hp, lo, hi, spec, tag):
+        g = a["__g__"]
+        m, s_, r = z3.Int(tag + "!m"), z3.Int(tag + "!s"), z3.Int(tag + "!r")
+        inr = z3.And(T.tz(lo) <= m, m < T.tz(hi))
+        ent = hp.entry
+        return z3.And(
+            T.ForAll([m], z3.Implies(inr, z3.And(T.tz(hp.init(m)), T.tz(hp.rows(m)) == g["S"], T.tz(hp.cols(m)) == g["R"])), [hp.rows(m)]),
+            T.ForAll([m, s_, r], z3.Implies(z3.And(inr, 0 <= s_, s_ < g["S"], 0 <= r, r < g["R"]),
+                                           T.tz(T.as_real(ent(m, s_, r))) == spec(m, s_, r)), [ent(m, s_, r)]))
+
+    @staticmethod
+    def _inv_gather(S, a, env, i):
+        g = a["__g__"]
+        hp = env["Uexp"]
+        return z3.And(T.tz(T.eq(hp.length, g["N"])), estimate_helper._slots(a, hp, 0, i, g["U"], "ug"))
+
+    @staticmethod
+    def _uexp_done(a, env):
+        g = a["__g__"]
+        return estimate_helper._slots(a, env["Uexp"], 0, g["N"], g["U"], "ud")
+
+    @staticmethod
+    def _inv_prefix(S, a, env, i):
+        g = a["__g__"]
+        hp = env["Zexp"]
+        return z3.And(T.tz(T.eq(hp.length, g["N"])), estimate_helper._uexp_done(a, env),
+                      estimate_helper._slots(a, hp, 1, T.tz(i) + 2, g["PRE"], "zp"))
+
+    @staticmethod
+    def _inv_suffix(S, a, env, i):
+        g = a["__g__"]
+        hp = env["Zexp"]
+        Nn, PRE, SUF = g["N"], g["PRE"], g["SUF"]
+        k = Nn - 2 - T.tz(i)                    # the mode the next iteration handles; modes k+1 .. N-2 are finished
+        return z3.And(T.tz(T.eq(hp.length, Nn)), estimate_helper._uexp_done(a, env),
+                      estimate_helper._slots(a, hp, 0, 1, lambda m, s_, r: SUF(k + 1, s_, r), "z0"),
+                      estimate_helper._slots(a, hp, 1, k + 1, PRE, "z1"),
+                      estimate_helper._slots(a, hp, k + 1, Nn, lambda m, s_, r: PRE(m, s_, r) * SUF(m + 1, s_, r), "z2"))
+
+    loops = {0: dict(modifies=["Uexp"], inv=lambda S, a, env, i: estimate_helper._inv_gather(S, a, env, i),
+                     havoc=lambda S, a, env, name: _havoc_list(S, env, name, "ux")),
+             1: dict(modifies=["Zexp"], inv=lambda S, a, env, i: estimate_helper._inv_prefix(S, a, env, i),
+                     havoc=lambda S, a, env, name: _havoc_list(S, env, name, "zx")),
+             2: dict(modifies=["Zexp"], inv=lambda S, a, env, i: estimate_helper._inv_suffix(S, a, env, i),
+                     havoc=lambda S, a, env, name: _havoc_list(S, env, name, "zy"))}
+
+    def ensures(self, S, a, ret):
+        g = a["__g__"]
+        yield "returns-(model-values, list)", isinstance(ret, tuple) and len(ret) == 2 and isinstance(ret[1], HeapList)
+        if not (isinstance(ret, tuple) and len(ret) == 2 and isinstance(ret[1], HeapList)):
+            return
+        Z = ret[1]
+        yield "one-matrix-per-mode", S.eq(Z.length, g["N"])
+        yield "leave-one-out-products", self._slots(a, Z, 0, g["N"], lambda m, s_, r: g["PRE"](m, s_, r) * g["SUF"](m + 1, s_, r), "ze")
+        mv = ret[0]
+        yield "one-model-value-per-sample", isinstance(mv, Arr) and mv.ndim == 1 and S.eq(mv.shape[0], g["S"])
